@@ -13,12 +13,14 @@ package main
 // lengths tried in increasing order, choices undone when the rest fails) – `dissect_eq_backtracking`
 // says the two are the same function.
 //
-// On the Go side there is a second, independent oracle: Go's own regexp package on exactly that
-// regular expression (`(?s)`, skipped tokens non-capturing, a token without trailing literal `(.*)`).
+// On the Go side there is a second, independent oracle: rare's OWN regex matcher (what `--match` runs:
+// fastregex.CompileEx, i.e. Go's regexp package; with -I BuildMatcherFromArguments puts `(?i)` in front)
+// on exactly that regular expression, named groups `(?P<key>.*?)` where the key is a legal group name (`(?s)`, skipped tokens non-capturing, a token without trailing literal `(.*)`).
 // Whenever the pair (pattern, line) is in the class where bytes and runes agree (literals valid UTF-8
 // without U+FFFD; with ignore-case: ASCII literals and no KELVIN SIGN / LONG S in the line, the two
 // non-ASCII runes that Unicode-fold to an ASCII letter) regexp.FindSubmatchIndex must return the very
-// slice the dissect instance returns; a difference is an answer the model never gives.
+// slice the dissect instance returns (and, when every captured key is a legal group name, the same
+// name table: `-d 'k=%{v};'` and `-m 'k=(?P<v>.*?);'` are then interchangeable); a difference is an answer the model never gives.
 //
 // Generators aim at AMBIGUOUS lines: tiny alphabets, delimiters that occur many times, overlap each
 // other and the prefix, so that a line has many readings (the stats count them) and a scan that
@@ -29,16 +31,20 @@ import (
 	"bytes"
 	"fmt"
 	"regexp"
+	"sort"
 	"strings"
 	"unicode/utf8"
 
 	"rare/pkg/matchers/dissect"
+	"rare/pkg/matchers/fastregex"
 )
+
+var c12GroupName = regexp.MustCompile(`^[A-Za-z0-9_]+$`)
 
 func c12IsSkip(key []byte) bool { return len(key) == 0 || key[0] == '?' }
 
 // the regular expression a dissect pattern stands for; ok=false when bytes and runes may disagree
-func c12Regexp(ic bool, pre []byte, keys, lits [][]byte) (*regexp.Regexp, bool) {
+func c12Regexp(ic bool, pre []byte, keys, lits [][]byte) (re fastregex.Regexp, expr string, named bool, ok bool) {
 	okLit := func(b []byte) bool {
 		if !utf8.Valid(b) || bytes.ContainsRune(b, utf8.RuneError) {
 			return false
@@ -53,35 +59,52 @@ func c12Regexp(ic bool, pre []byte, keys, lits [][]byte) (*regexp.Regexp, bool) 
 		return true
 	}
 	if !okLit(pre) {
-		return nil, false
+		return nil, "", false, false
+	}
+	named = true
+	for i := range keys {
+		if !c12IsSkip(keys[i]) && !c12GroupName.Match(keys[i]) {
+			named = false
+		}
 	}
 	var sb strings.Builder
-	sb.WriteString("(?s")
 	if ic {
-		sb.WriteString("i")
+		sb.WriteString("(?i)") // exactly what BuildMatcherFromArguments prepends for -I
 	}
-	sb.WriteString(")")
+	sb.WriteString("(?s)")
 	sb.WriteString(regexp.QuoteMeta(string(pre)))
 	for i := range keys {
 		if !okLit(lits[i]) {
-			return nil, false
+			return nil, "", false, false
 		}
 		body := ".*?"
 		if len(lits[i]) == 0 {
 			body = ".*"
 		}
-		if c12IsSkip(keys[i]) {
+		switch {
+		case c12IsSkip(keys[i]):
 			sb.WriteString("(?:" + body + ")")
-		} else {
+		case named:
+			sb.WriteString("(?P<" + string(keys[i]) + ">" + body + ")")
+		default:
 			sb.WriteString("(" + body + ")")
 		}
 		sb.WriteString(regexp.QuoteMeta(string(lits[i])))
 	}
-	re, err := regexp.Compile(sb.String())
+	c, err := fastregex.CompileEx(sb.String(), false)
 	if err != nil {
-		return nil, false
+		return nil, "", false, false
 	}
-	return re, true
+	return c.CreateInstance(), sb.String(), named, true
+}
+
+func c12NameTable(m map[string]int) string {
+	var names []string
+	for k, v := range m {
+		names = append(names, fmt.Sprintf("%s:%d", HexS(k), v))
+	}
+	sort.Strings(names)
+	return strings.Join(names, ",")
 }
 
 func c12LineComparable(ic bool, l []byte) bool {
@@ -97,7 +120,12 @@ func c12Lazy(ic bool, pre []byte, keys, lits [][]byte, lines [][]byte) string {
 	if err != nil {
 		return "err " + c12ErrClass(err)
 	}
-	re, cmp := c12Regexp(ic, pre, keys, lits)
+	re, expr, named, cmp := c12Regexp(ic, pre, keys, lits)
+	if cmp && named {
+		if a, b := c12NameTable(d.SubexpNameTable()), c12NameTable(re.SubexpNameTable()); a != b {
+			return fmt.Sprintf("impl-regexp-names-differ dissect=%s regexp=%s re=%s", a, b, HexS(expr))
+		}
+	}
 	inst := d.CreateInstance()
 	var held [][]int
 	for i, l := range lines {
@@ -105,7 +133,7 @@ func c12Lazy(ic bool, pre []byte, keys, lits [][]byte, lines [][]byte) string {
 		held = append(held, r)
 		if cmp && c12LineComparable(ic, l) {
 			if want := c12Ints(re.FindSubmatchIndex(l)); want != c12Ints(r) {
-				return fmt.Sprintf("impl-regexp-differs line=%d dissect=%s regexp=%s re=%s", i, c12Ints(r), want, HexS(re.String()))
+				return fmt.Sprintf("impl-regexp-differs line=%d dissect=%s regexp=%s re=%s", i, c12Ints(r), want, HexS(expr))
 			}
 		}
 	}
@@ -328,7 +356,10 @@ func c12StatsLazy(f []string, st map[string]int) bool {
 		st["lazy.compileError"]++
 		return true
 	}
-	_, cmp := c12Regexp(ic, pre, keys, lits)
+	_, _, named, cmp := c12Regexp(ic, pre, keys, lits)
+	if cmp && named {
+		st["lazy.nameTableCompared"]++
+	}
 	fold := func(b []byte) []byte {
 		if !ic {
 			return b
